@@ -21,28 +21,28 @@ import (
 )
 
 type Program struct {
-	fset    *token.FileSet
-	pkgPath string
-	tpkg    *types.Package
-	info    *types.Info
-	files   []*ast.File
-	prog    *ssa.Program
-	spkg    *ssa.Package
-	cs      *ContractSet
-	fnByKey map[string]*ssa.Function
-	genSrc  string
-	pkgDir  string // directory of the package under verification
-	genMap  map[string]*Clause // clause fn name -> clause
-	modPath string             // module path prefix: functions under it may be inlined
-	ghost   map[string]bool
-	imports map[string]*types.Package
-	allFns  []*ssa.Function
-	litOf   map[*ssa.Function]ast.Node
-	modSSA  []*ssa.Package
+	fset       *token.FileSet
+	pkgPath    string
+	tpkg       *types.Package
+	info       *types.Info
+	files      []*ast.File
+	prog       *ssa.Program
+	spkg       *ssa.Package
+	cs         *ContractSet
+	fnByKey    map[string]*ssa.Function
+	genSrc     string
+	pkgDir     string             // directory of the package under verification
+	genMap     map[string]*Clause // clause fn name -> clause
+	modPath    string             // module path prefix: functions under it may be inlined
+	ghost      map[string]bool
+	imports    map[string]*types.Package
+	allFns     []*ssa.Function
+	litOf      map[*ssa.Function]ast.Node
+	modSSA     []*ssa.Package
 	getterPkgs map[string]bool
-	implCache map[string]types.Type
-	gsCands   []types.Type
-	implMu    sync.Mutex
+	implCache  map[string]types.Type
+	gsCands    []types.Type
+	implMu     sync.Mutex
 }
 
 func readContractLines(path string) (lines []string, nos []int, goText []string, err error) {
